@@ -9,6 +9,7 @@
   untouched).  All theorems: any skeleton, any field, any number of sources.
 -/
 import CC.Proofs.Linear
+import CC.Properties.C01
 set_option linter.unusedSectionVars false
 
 namespace CC
@@ -123,5 +124,47 @@ theorem C04_zero_all (bs : List (Branch L K)) (z : L) :
     intro y hy
     obtain ⟨b, _, rfl⟩ := List.mem_map.mp hy
     simp [Elem.physCurrent, Report.zeroRep]
+
+end CC
+
+/-! ### the same statement about the numbers the code reports -/
+
+namespace CC
+variable {L K : Type} [DecidableEq L] [LabelOrd L] [Field K] [DecidableEq K]
+
+/-- **C04 (reported values).**  For a skeleton `bs` with reference `z`: whatever vectors
+satisfy the three matrix equations the code builds for the source assignments `s1`, `s2`
+and `s1 + s2` (the last network well-posed), the potentials and voltages the accessors
+report for the sum are the sums of those reported for the parts — on every node label and
+every branch. -/
+theorem C04_reported_superpose (bs : List (Branch L K)) (z : L) (s1 s2 : String → K)
+    (wf1 : (⟨withSrc bs s1, z⟩ : Net L K).WF) (wf2 : (⟨withSrc bs s2, z⟩ : Net L K).WF)
+    (wf : (⟨withSrc bs fun id => s1 id + s2 id, z⟩ : Net L K).WF)
+    (hw : WellPosed (⟨withSrc bs fun id => s1 id + s2 id, z⟩ : Net L K))
+    (x1 x2 x : List K)
+    (hx1 : x1.length = (⟨withSrc bs s1, z⟩ : Net L K).nodes.length + (⟨withSrc bs s1, z⟩ : Net L K).vsIds.length)
+    (hx2 : x2.length = (⟨withSrc bs s2, z⟩ : Net L K).nodes.length + (⟨withSrc bs s2, z⟩ : Net L K).vsIds.length)
+    (hx : x.length = (⟨withSrc bs fun id => s1 id + s2 id, z⟩ : Net L K).nodes.length
+        + (⟨withSrc bs fun id => s1 id + s2 id, z⟩ : Net L K).vsIds.length)
+    (h1 : matVec (⟨withSrc bs s1, z⟩ : Net L K).mnaA x1 = (⟨withSrc bs s1, z⟩ : Net L K).mnaB)
+    (h2 : matVec (⟨withSrc bs s2, z⟩ : Net L K).mnaA x2 = (⟨withSrc bs s2, z⟩ : Net L K).mnaB)
+    (h : matVec (⟨withSrc bs fun id => s1 id + s2 id, z⟩ : Net L K).mnaA x
+        = (⟨withSrc bs fun id => s1 id + s2 id, z⟩ : Net L K).mnaB) :
+    let N : Net L K := ⟨withSrc bs fun id => s1 id + s2 id, z⟩
+    let R := N.reportOf x
+    let R1 := (⟨withSrc bs s1, z⟩ : Net L K).reportOf x1
+    let R2 := (⟨withSrc bs s2, z⟩ : Net L K).reportOf x2
+    (∀ n ∈ N.allLabels, R.pot n = R1.pot n + R2.pot n) ∧
+    (∀ b ∈ N.branches, R.v b.id = R1.v b.id + R2.v b.id) := by
+  intro N R R1 R2
+  have hids : (bs.map (·.id)).Nodup := by
+    have := wf.ids_nodup
+    simpa [Net.ids, withSrc_ids] using this
+  have e1 := (circuitEqsAll_iff _ _).mpr (C01_sound _ x1 wf1 hx1 h1).2.2
+  have e2 := (circuitEqsAll_iff _ _).mpr (C01_sound _ x2 wf2 hx2 h2).2.2
+  obtain ⟨S, hS, hp, hv, _⟩ := C04_superpose bs z hids s1 s2 R1 R2 e1 e2
+  have hS' : CircuitEqs N S := (circuitEqsAll_iff N S).mp hS
+  obtain ⟨ap, ab⟩ := C01_reported_is_the_solution N wf hw x hx h S hS'
+  exact ⟨fun n hn => by rw [ap n hn, hp], fun b hb => by rw [(ab b hb).1, hv]⟩
 
 end CC
